@@ -271,8 +271,16 @@ def concLine (f : List String) : String :=
   | id :: sys :: _max :: prog :: rest =>
     let ths := (prog.splitOn "|").map fun t => t.splitOn ";"
     let ms := merges ths
+    -- `post=op;op`: run sequentially after all threads have finished
+    let post := match kv rest "post" with
+      | some p => if p == "" then [] else p.splitOn ";"
+      | none => []
+    let pre := match kv rest "pre" with
+      | some p => if p == "" then [] else p.splitOn ";"
+      | none => []
     let outs := ms.map fun m =>
-      if sys == "tracker" then trackerOutcome (m.map (·.2)) else healthOutcome ths.length m
+      if sys == "tracker" then trackerOutcome (pre ++ m.map (·.2) ++ post)
+      else healthOutcome (ths.length + (if post.isEmpty then 0 else 1)) (m ++ post.map fun o => (ths.length, o))
     if outs.any Option.isNone then s!"{id} !badcase" else
     let model := dedupS (outs.filterMap fun o => o)
     let obsFields := ((kv rest "obs").getD "").splitOn ";"
